@@ -132,6 +132,13 @@ def optimiser_part(ck, tier):
         else:
             x0 = np.array([[-1.0, 0.0], [0.5, 1.0], [2.0, -1.0]])
             bounds = [(-2.0, 3.0), (-2.0, 2.0)]
+        bounds_list = list(bounds)
+        if hi % 4 >= 2:
+            bounds = np.array(bounds, dtype=float)       # the search bounds given as a float array of shape (dim, 2): the caller's array, left alone
+        bkeep = np.array(bounds_list, dtype=float)
+        # every other time the upper-confidence-bound acquisition is given as a configured INSTANCE (kappa = 3.5) instead of the class
+        kappa = 3.5 if (acq is UpperConfidenceBound and (hi // 3) % 2 == 1) else None
+        acq_arg = UpperConfidenceBound(kappa=kappa) if kappa is not None else acq
         y0 = np.array([1.0, -2.0, 0.0])
         e0 = np.array([0.1, 0.2, 0.1])
         keep = [x0.copy(), y0.copy(), e0.copy()]
@@ -140,20 +147,29 @@ def optimiser_part(ck, tier):
         ck.case(("opt", hi))
 
         def unchanged(extra=()):
-            ok = all(a.shape == b.shape and np.array_equal(a, b) for a, b in zip((x0, y0, e0), keep))
+            ok = all(a.shape == b.shape and np.array_equal(a, b) for a, b in zip((x0, y0, e0), keep)) and np.array_equal(np.asarray(bounds, dtype=float), bkeep)
             return bool(ok and all(a.shape == b.shape and np.array_equal(a, b) for a, b in extra))
         try:
             with warnings.catch_warnings(), np.errstate(all="ignore"):
                 warnings.simplefilter("ignore")
-                opt = GpOptimiser(x=x0, y=y0, y_err=e0, bounds=bounds, acquisition=acq)
-                evs = [{"ev": "Init", "ys": [int(v) for v in y0], "n": int(len(opt.y)), "gp_n": int(opt.gp.y.size),
+                opt = GpOptimiser(x=x0, y=y0, y_err=e0, bounds=bounds, acquisition=acq_arg)
+                acq_ok = True
+                if acq is UpperConfidenceBound:
+                    # the optimiser's own acquisition object computes mean + kappa * sd of ITS model with the kappa it was configured with
+                    xq = np.array([0.3] * dim)
+                    m_, s_ = opt.gp(xq.reshape(1, dim) if dim > 1 else xq)
+                    want_u = float(m_[0]) + (kappa if kappa is not None else 2.0) * float(s_[0])
+                    acq_ok = bool(abs(float(opt.acquisition(xq)) - want_u) <= 1e-9 * (1 + abs(want_u)) and
+                                  abs(float(opt.acquisition.opt_func(xq)) + want_u) <= 1e-9 * (1 + abs(want_u)) and
+                                  abs(float(opt.acquisition.opt_func_gradient(xq)[0]) + want_u) <= 1e-9 * (1 + abs(want_u)))
+                evs = [{"ev": "Init", "ys": [int(v) for v in y0], "n": int(len(opt.y)), "gp_n": int(opt.gp.y.size), "acq_ok": acq_ok,
                         "mu_max": int(round(float(opt.acquisition.mu_max))), "caller_unchanged": unchanged()}]
                 last_prop = None
                 for op, o, yv in h["hist"]:
                     if op == "propose":
                         p = np.atleast_1d(np.asarray(opt.propose_evaluation(optimizer=o), dtype=float))
                         last_prop = p
-                        inside = bool(p.shape == (dim,) and all(b[0] - 1e-9 <= v <= b[1] + 1e-9 for v, b in zip(p, bounds)))
+                        inside = bool(p.shape == (dim,) and all(b[0] - 1e-9 <= v <= b[1] + 1e-9 for v, b in zip(p, bounds_list)))
                         evs.append({"ev": "Propose", "inside": inside, "n": int(len(opt.y)), "caller_unchanged": unchanged()})
                     else:
                         nx = (last_prop.copy() if last_prop is not None else np.array([0.25] * dim))
